@@ -39,6 +39,8 @@ def line_alphabet(LIB):
             # the own entry as a token that does not start in column one: indented, after / between other libraries, twice on one line
             # another library's entry whose trailing comment mentions a libsnoopy.so / the own path (dead text for the loader)
             b'/usr/lib/libfoo.so # libsnoopy.so used to be here', b'/usr/lib/libfoo.so # was ' + LIB,
+            # comments that name the own path twice behind one '#', the second time as a whole token
+            b'# moved ' + LIB + b'.old to ' + LIB, b'/usr/lib/libfoo.so # not ' + LIB + b' ' + LIB,
             b' ' + LIB, b'\t' + LIB + b' # c', b'/usr/lib/libfoo.so ' + LIB + b' /usr/lib/libbar.so', b'/usr/lib/libfoo.so\t' + LIB + b' # c', LIB + b' ' + LIB]
 
 
